@@ -5,6 +5,7 @@ package c16
 import (
 	"context"
 	"fmt"
+	"slices"
 	"strings"
 	"time"
 
@@ -29,6 +30,9 @@ type iscenario struct {
 	ZoneAt   []int     `json:"zone_version_changes_at_s"`
 	FailFrom int       `json:"upstream_fails_from_s"` // -1 never
 	FailTo   int       `json:"upstream_fails_to_s"`
+	// FailClients: every upstream query issued on behalf of these client threads fails (one client's path to the DoH service is
+	// broken): failures and successes for one name at the same instant
+	FailClients []int `json:"upstream_fails_for_clients,omitempty"`
 }
 
 type upstream struct {
@@ -58,6 +62,7 @@ func runInter(sc iscenario, choose vs.Chooser) (ups []upstream, looks []lookup, 
 		return sc.FailFrom >= 0 && t >= sc.FailFrom && t < sc.FailTo
 	}
 	starts := map[int]time.Duration{}
+	clientOf := map[int]int{} // scheduler thread -> client index
 	srv.OnQuery = func(q dohmem.Query) {
 		starts[vs.ThreadID()] = vs.Elapsed()
 		vs.Yield("doh query " + q.Name)
@@ -69,6 +74,9 @@ func runInter(sc iscenario, choose vs.Chooser) (ups []upstream, looks []lookup, 
 		// evaluated after the latency: the answer reflects the zone at answer time
 		u := upstream{key: keyOf(name, t), at: vs.Elapsed(), version: version, failed: failing()}
 		u.thread = vs.ThreadID()
+		if ci, ok := clientOf[u.thread]; ok && slices.Contains(sc.FailClients, ci) {
+			u.failed = true
+		}
 		u.started = starts[u.thread]
 		ups = append(ups, u)
 		if u.failed {
@@ -90,6 +98,7 @@ func runInter(sc iscenario, choose vs.Chooser) (ups []upstream, looks []lookup, 
 			wg.Add(1)
 			vs.GoNamed(fmt.Sprintf("client%d", ti), func() {
 				defer wg.Done()
+				clientOf[vs.ThreadID()] = ti
 				for _, st := range prog {
 					if st.Wait > 0 {
 						vs.Sleep(time.Duration(st.Wait) * time.Second)
@@ -138,39 +147,20 @@ func monitorInter(sc iscenario, ups []upstream, looks []lookup, s *vs.Sched) (ke
 		if call == nil {
 			continue
 		}
-		// Which answer sits in the cache when the lookup begins? Two first lookups may race between cache.Get and cache.Add and
-		// then fetch into two different entry objects, only one of which stays in the cache. So: take the last answer for
-		// the key obtained before the lookup began and every answer whose fetch overlapped it (the last "generation");
-		// the cached one is among them. Only if ALL of them are still valid is an upstream query redundant.
-		var gen []upstream
-		var last *upstream
+		// A SUCCESSFUL answer for the key that was obtained before this lookup began and is still within its smallest TTL when the
+		// query is sent makes the query redundant: whatever else happened meanwhile - first lookups racing between cache.Get and
+		// cache.Add, other lookups of the name failing at the same instant - a fresh answer, once obtained, is what the cache holds
+		// (failures store nothing and evict nothing that is fresh).
 		for i := range ups {
 			rr := &ups[i]
-			if rr.key == q.key && rr.at < call.start && (last == nil || rr.at > last.at) {
-				last = rr
+			if rr.key != q.key || rr.failed || rr.at >= call.start {
+				continue
 			}
-		}
-		if last == nil {
-			continue
-		}
-		for _, rr := range ups {
-			// (overlapping = obtained after the last one's fetch began, or begun at the same instant: two first lookups racing.
-			// An answer obtained at the very instant the last fetch began is its predecessor on the same entry - the waiter
-			// took over the entry lock - and has no bearing on what is cached now.)
-			if rr.key == q.key && rr.at < call.start && (rr.at > last.started || rr.started == last.started) {
-				gen = append(gen, rr)
-			}
-		}
-		allValid := true
-		for _, rr := range gen {
 			ttl, bounded := minTTL(versions[rr.version][rr.key])
-			if rr.failed || !bounded || ttl == 0 || rr.at+time.Duration(ttl)*time.Second <= q.started {
-				allValid = false
+			if !bounded || ttl == 0 || rr.at+time.Duration(ttl)*time.Second <= q.started {
+				continue
 			}
-		}
-		if allValid {
-			ttl, _ := minTTL(versions[last.version][last.key])
-			return "redundant-upstream-query:" + q.key, fmt.Sprintf("client lookup begun at %v sent an upstream query for %s at %v although the answer obtained at %v (smallest TTL %d s) was still valid; upstream log: %+v", call.start, q.key, q.started, last.at, ttl, ups)
+			return "redundant-upstream-query:" + q.key, fmt.Sprintf("client lookup begun at %v sent an upstream query for %s at %v although the answer obtained at %v (smallest TTL %d s) was still valid; upstream log: %+v", call.start, q.key, q.started, rr.at, ttl, ups)
 		}
 	}
 	for _, l := range looks {
@@ -239,6 +229,10 @@ func interScenarios(thorough bool) []iscenario {
 			}
 		}
 	}
+	// three clients, the upstream failing for two of them: a lookup fails, the one that waited for it succeeds, a third one
+	// started meanwhile fails - and the one good answer is what later lookups get
+	out = append(out, iscenario{Threads: [][]istep{{{0, "n1.example"}}, {{0, "n1.example"}, {1, "n1.example"}}, {{1, "n1.example"}}}, Latency: 1, FailFrom: -1, FailClients: []int{0, 2}})
+	out = append(out, iscenario{Threads: [][]istep{{{0, "n1.example"}}, {{0, "n1.example"}, {1, "n1.example"}}, {{0, "n1.example"}}}, Latency: 1, FailFrom: -1, FailClients: []int{0, 2}})
 	if thorough {
 		for _, lat := range []int{0, 1} {
 			out = append(out, iscenario{Threads: [][]istep{progs[0], progs[1], progs[4]}, Latency: lat, ZoneAt: []int{1}, FailFrom: -1})
